@@ -10,7 +10,7 @@ use serde_json::json;
 use std::collections::BTreeSet;
 use vmon::prng::Rng;
 use vmon::report::{Args, Report};
-use vmon::store::Kind;
+use vmon::store::{Kind, World};
 
 fn weights() -> Weights {
     use OpKind::*;
@@ -258,7 +258,15 @@ async fn grammar_through_api(seed: u64, valid: &[String], invalid: &[String], re
             }
         }
         Err(e) => {
-            report.violation("tags-list-fails", &e.to_string(), json!({"created": tags}));
+            let non_ascii: Vec<&String> = tags.iter().filter(|t| !t.is_ascii()).collect();
+            let class = if !non_ascii.is_empty() && e.to_string().contains("%25") {
+                // narrow class: a tag whose (accepted) name has a non-ASCII letter is stored
+                // percent-encoded, listed by its encoded name and looked up double-encoded
+                "tags-list-fails-after-creating-tag-with-non-ascii-name"
+            } else {
+                "tags-list-fails"
+            };
+            report.violation(class, &e.to_string(), json!({"created": tags, "non_ascii": non_ascii}));
         }
     }
 }
@@ -328,34 +336,62 @@ fn owned_by(path: &str, owner: &Loc, others: &[Loc]) -> bool {
     true
 }
 
-/// footprint oracle for one step; returns (violating path, why)
+/// footprint oracle for one step; returns (violating path, why).
+/// A mutation violates isolation iff it touches storage owned by a *live* lineage other than the
+/// one the step operates on (or the ref files, for steps that are not ref operations). Garbage
+/// of branches that were deleted earlier belongs to nobody and may be removed by anyone.
 pub fn footprint_violations(rec: &StepRec, events: &[vmon::store::Event], live_before: &[Loc], live_after: &[Loc]) -> Vec<(String, String)> {
     let mut out = vec![];
     let Some(loc) = &rec.loc else { return out };
     let root = uri_to_path(&loc.table);
+    // the lineage this step is entitled to mutate
+    let own: Loc = match &rec.extra {
+        Extra::BranchCreate { new, .. } | Extra::Clone { new, .. } => new.clone(),
+        Extra::BranchDelete { loc: victim, .. } => victim.clone(),
+        _ => loc.clone(),
+    };
+    let mut live: Vec<Loc> = live_before.to_vec();
+    for l in live_after {
+        if !live.contains(l) {
+            live.push(l.clone());
+        }
+    }
+    let is_ref_op = matches!(
+        rec.kind,
+        OpKind::TagCreate | OpKind::TagUpdate | OpKind::TagDelete | OpKind::BranchCreate | OpKind::BranchDelete
+    );
     for e in events {
         if !e.kind.is_mutating() || !e.applied {
             continue;
         }
         let p = e.dest().to_string();
-        let ok = match (&rec.kind, &rec.extra) {
-            (OpKind::TagCreate | OpKind::TagUpdate | OpKind::TagDelete, _) => p.starts_with(&format!("{root}/_refs/tags/")),
-            (OpKind::BranchCreate, Extra::BranchCreate { new, .. }) => {
-                owned_by(&p, new, live_after) || p == branch_file(&new.table, new.branch.as_deref().unwrap_or(""))
+        let verb = if e.kind == Kind::Delete { "deleted" } else { "wrote" };
+        if p.starts_with(&format!("{root}/_refs/")) {
+            let ok = match rec.kind {
+                OpKind::TagCreate | OpKind::TagUpdate | OpKind::TagDelete => p.starts_with(&format!("{root}/_refs/tags/")),
+                OpKind::BranchCreate | OpKind::BranchDelete => {
+                    own.branch.as_deref().map(|b| p == branch_file(&own.table, b)).unwrap_or(true)
+                }
+                _ => false,
+            };
+            if !ok {
+                out.push((p, format!("{} {verb} a ref file", e.kind.name())));
             }
-            (OpKind::BranchDelete, Extra::BranchDelete { loc: victim, .. }) => {
-                (e.kind == Kind::Delete && owned_by(&p, victim, live_after))
-                    || p == branch_file(&victim.table, victim.branch.as_deref().unwrap_or(""))
+            continue;
+        }
+        if is_ref_op && matches!(rec.kind, OpKind::TagCreate | OpKind::TagUpdate | OpKind::TagDelete) {
+            out.push((p, format!("{} {verb} (tag operation outside _refs/tags)", e.kind.name())));
+            continue;
+        }
+        for other in &live {
+            if *other == own {
+                continue;
             }
-            (OpKind::ShallowClone, Extra::Clone { new, .. }) => owned_by(&p, new, live_after),
-            (OpKind::BranchCreate | OpKind::BranchDelete | OpKind::ShallowClone, _) => {
-                // refused / failed: may have touched the would-be target only; judged by re-reads
-                true
+            // for delete_branch the victim is no longer in live_after but still "own"
+            if owned_by(&p, other, &live) {
+                out.push((p.clone(), format!("{} {verb} storage of live lineage {}", e.kind.name(), other.label())));
+                break;
             }
-            _ => owned_by(&p, loc, live_before),
-        };
-        if !ok {
-            out.push((p, format!("{} {}", e.kind.name(), if e.kind == Kind::Delete { "deleted" } else { "wrote" })));
         }
     }
     out
@@ -365,6 +401,7 @@ async fn one_case(seed: u64, case: u64, max_ops: usize, report: &Report) {
     let mut rng = Rng::for_case(seed, case);
     let mut cfg = HistCfg::random(&mut rng);
     cfg.cleanup_isolated_only = false;
+    cfg.restore_on_branches = true;
     let n_ops = rng.urange(6, max_ops);
     let w = weights();
     let mut h = Hist::mem(rng.clone(), cfg);
@@ -379,6 +416,8 @@ async fn one_case(seed: u64, case: u64, max_ops: usize, report: &Report) {
     h.step(OpKind::Append).await;
     h.step(OpKind::DeleteIds).await;
     let world = h.env.world().unwrap().clone();
+    // (lineage, version) already reported as damaged: report each damage once
+    let mut broken: BTreeSet<(Loc, u64)> = BTreeSet::new();
     let mut cross_reads = 0u64;
     let mut commits_with_many_lineages = 0u64;
     for _ in 0..n_ops {
@@ -410,6 +449,10 @@ async fn one_case(seed: u64, case: u64, max_ops: usize, report: &Report) {
                 &format!("step {} ({} on {:?}) {} {} ({} such objects)", rec.idx, rec.kind.name(), rec.loc.as_ref().map(|l| l.label()), why, p, fv.len()),
                 json!({"ctx": ctx(&h), "paths": fv.iter().take(12).collect::<Vec<_>>(), "live_before": live_before.iter().map(|l| l.label()).collect::<Vec<_>>()}),
             );
+        }
+        if !fv.is_empty() {
+            report.count("histories_stopped_after_escaped_mutation", 1);
+            break;
         }
         if rec.kind == OpKind::BranchDelete && rec.outcome.is_ok() {
             report.count("branch_deletes_footprinted", 1);
@@ -517,6 +560,9 @@ async fn one_case(seed: u64, case: u64, max_ops: usize, report: &Report) {
                 // the tagged version must read as its snapshot (if its lineage is still alive and
                 // the version was not removed by a cleanup that was allowed to)
                 let tl = Loc { table: table.clone(), branch: br.clone() };
+                if broken.contains(&(tl.clone(), *v)) {
+                    continue;
+                }
                 if let Some(snap) = h.lin.get(&tl).and_then(|l| l.snaps.get(v)) {
                     let r = crate::walker::guard(async {
                         let ds = h.lin[&main].head.checkout_version(name.as_str()).await.map_err(|e| e.to_string())?;
@@ -528,6 +574,7 @@ async fn one_case(seed: u64, case: u64, max_ops: usize, report: &Report) {
                     match r {
                         Ok(s) => {
                             if let Some((class, detail)) = crate::snap::diff(snap, &s) {
+                                broken.insert((tl.clone(), *v));
                                 report.violation(
                                     &format!("tagged-version-{class}"),
                                     &format!("checkout of tag {name} -> {}:v{} differs from its snapshot after step {} ({})", tl.label(), v, rec.idx, rec.kind.name()),
@@ -536,7 +583,12 @@ async fn one_case(seed: u64, case: u64, max_ops: usize, report: &Report) {
                             }
                         }
                         Err(e) => {
-                            let class = classify_unreadable(&h, &rec, &tl);
+                            broken.insert((tl.clone(), *v));
+                            let (class, clone_only) = classify_unreadable(&h, &world, &rec, &tl, &e);
+                            if clone_only {
+                                report.count("shallow_clones_broken_by_maintenance_of_their_source(not judged)", 1);
+                                continue;
+                            }
                             report.violation(
                                 &format!("tagged-version-unreadable-{class}"),
                                 &format!("tag {name} -> {}:v{} cannot be read after step {} ({}): {}", tl.label(), v, rec.idx, rec.kind.name(), e.chars().take(300).collect::<String>()),
@@ -552,25 +604,32 @@ async fn one_case(seed: u64, case: u64, max_ops: usize, report: &Report) {
                     match b.load().await {
                         Ok(ds) => {
                             if ds.manifest().version != *v || ds.manifest().branch != *br {
+                                let class = if br.is_some() && ds.manifest().branch.is_none() && ds.manifest().version == *v {
+                                    // narrow class: the builder opens version N of the ROOT for a tag that
+                                    // names (branch, N)
+                                    "builder-with_tag-ignores-the-branch-of-the-tag"
+                                } else {
+                                    "builder-with_tag-opens-other-version"
+                                };
                                 report.violation(
-                                    "builder-with_tag-opens-other-version",
+                                    class,
                                     &format!("with_tag({name}) opened ({:?},{}) expected ({:?},{})", ds.manifest().branch, ds.manifest().version, br, v),
                                     json!({"ctx": ctx(&h)}),
                                 );
                             }
                         }
                         Err(e) => {
-                            // narrow class: the builder resolves the tag's version number against the
-                            // root first, which need not have that version
-                            let root_has = h.lin.get(&main).map(|l| l.snaps.contains_key(v) || l.removed.contains_key(v) || l.unreadable.contains_key(v)).unwrap_or(false);
-                            let class = if br.is_some() && !root_has && e.to_string().contains("was not found") {
-                                "builder-with_tag-on-branch-fails-when-root-lacks-that-version-number"
+                            // same narrow class when the root simply has no version with that number
+                            let es = e.to_string();
+                            let root_dir = format!("{}/_versions/", uri_to_path(&table));
+                            let class = if br.is_some() && es.contains("was not found") && es.contains(&root_dir) {
+                                "builder-with_tag-ignores-the-branch-of-the-tag"
                             } else {
                                 "builder-with_tag-fails"
                             };
                             report.violation(
                                 class,
-                                &format!("DatasetBuilder::with_tag({name}) -> {}:v{}: {}", tl.label(), v, e.to_string().chars().take(200).collect::<String>()),
+                                &format!("DatasetBuilder::with_tag({name}) -> {}:v{}: {}", tl.label(), v, es.chars().take(200).collect::<String>()),
                                 json!({"ctx": ctx(&h)}),
                             );
                         }
@@ -616,7 +675,7 @@ async fn one_case(seed: u64, case: u64, max_ops: usize, report: &Report) {
             chosen.sort();
             chosen.dedup();
             for v in chosen {
-                if rec.new_versions.contains(&(other.clone(), v)) {
+                if rec.new_versions.contains(&(other.clone(), v)) || broken.contains(&(other.clone(), v)) {
                     continue;
                 }
                 let fresh = rng.bool();
@@ -629,6 +688,7 @@ async fn one_case(seed: u64, case: u64, max_ops: usize, report: &Report) {
                 match r {
                     Ok(None) => {}
                     Ok(Some((class, detail))) => {
+                        broken.insert((other.clone(), v));
                         report.violation(
                             &format!("{whose}-lineage-{class}-after-{}", rec.kind.name()),
                             &format!("{}:v{} differs from its snapshot after step {} ({} on {:?})", other.label(), v, rec.idx, rec.kind.name(), rec.loc.as_ref().map(|l| l.label())),
@@ -636,9 +696,15 @@ async fn one_case(seed: u64, case: u64, max_ops: usize, report: &Report) {
                         );
                     }
                     Err(e) => {
-                        let class = classify_unreadable(&h, &rec, &other);
+                        broken.insert((other.clone(), v));
+                        let (class, clone_only) = classify_unreadable(&h, &world, &rec, &other, &e);
+                        let _ = whose;
+                        if clone_only {
+                            report.count("shallow_clones_broken_by_maintenance_of_their_source(not judged)", 1);
+                            continue;
+                        }
                         report.violation(
-                            &format!("{whose}-lineage-unreadable-{class}"),
+                            &format!("lineage-unreadable-{class}"),
                             &format!("{}:v{} cannot be read after step {} ({} on {:?}): {}", other.label(), v, rec.idx, rec.kind.name(), rec.loc.as_ref().map(|l| l.label()), e.chars().take(300).collect::<String>()),
                             json!({"ctx": ctx(&h), "error": e}),
                         );
@@ -671,17 +737,36 @@ async fn one_case(seed: u64, case: u64, max_ops: usize, report: &Report) {
     }
 }
 
-/// Narrow class of "lineage X became unreadable after step S": which relation does X have to the
-/// lineage the step operated on?
-fn classify_unreadable(h: &Hist, rec: &StepRec, victim: &Loc) -> String {
-    let Some(actor) = &rec.loc else { return format!("after-{}", rec.kind.name()) };
+/// Narrow class of "lineage X can no longer be read": if the error names a missing object, find the
+/// step whose store calls deleted it (store log) and describe the relation between the lineage
+/// that step operated on and the damaged one.
+fn classify_unreadable(h: &Hist, world: &World, rec: &StepRec, victim: &Loc, err: &str) -> (String, bool) {
+    let missing = err
+        .find("Object at location ")
+        .map(|i| &err[i + "Object at location ".len()..])
+        .and_then(|s| s.find(" not found").map(|j| s[..j].to_string()));
+    let mut culprit: Option<(OpKind, Option<Loc>)> = None;
+    if let Some(p) = &missing {
+        let ev = world.events();
+        if let Some(idx) = ev.iter().rposition(|e| e.kind == Kind::Delete && e.applied && e.path == *p) {
+            for st in h.steps.iter().chain(std::iter::once(rec)) {
+                if idx >= st.log_from && idx < st.log_to {
+                    culprit = Some((st.kind, st.loc.clone()));
+                }
+            }
+        }
+    }
+    let Some((kind, actor)) = culprit else {
+        return (format!("cause-not-found-in-store-log-after-{}", rec.kind.name()), false);
+    };
+    let Some(actor) = actor else { return (format!("object-deleted-by-{}", kind.name()), false) };
     // does `victim` descend from `actor` (reads actor's files through base paths)?
     let mut cur = victim.clone();
     let mut descends = false;
     for _ in 0..8 {
         match h.lin.get(&cur).and_then(|l| l.parent.clone()) {
             Some((p, _)) => {
-                if p == *actor {
+                if p == actor {
                     descends = true;
                     break;
                 }
@@ -690,14 +775,17 @@ fn classify_unreadable(h: &Hist, rec: &StepRec, victim: &Loc) -> String {
             None => break,
         }
     }
-    let rel = if victim == actor {
-        "own"
+    let rel = if *victim == actor {
+        "on-itself"
     } else if descends {
-        "of-a-branch-or-clone-cut-from-the-cleaned-lineage"
+        "on-the-lineage-it-was-cut-from"
     } else {
-        "unrelated"
+        "on-an-unrelated-lineage"
     };
-    format!("{rel}-after-{}", rec.kind.name())
+    // The property protects main / branches / tags / the clone *source*. A shallow clone (another
+    // table root) that loses files because its source was cleaned is outside its wording.
+    let clone_hit_by_source = descends && victim.table != actor.table;
+    (format!("object-deleted-by-{}-{rel}", kind.name()), clone_hit_by_source)
 }
 
 fn selftest() -> i32 {
